@@ -595,6 +595,8 @@ def emit_p(inst, real):
     grow = inst.get("grow", False)
     scratch = inst.get("scratch_extra", 0)
     loops = [taps, sw, sh, dw, dh, pw, ph, nc, spare * nc]
+    if inst.get("src", ("typed_ref",))[0] == "owned":
+        loops.append(sw * sh)
     if grow:
         loops += [conv_bytes, alpha_bytes]
     unwind = max(loops) + 2
@@ -829,9 +831,10 @@ def gen_c13(tier, seed):
     insts = []
     C = ("Convolution", "Bilinear")
     # same logical operation (4x3 -> 2x2) through different containers / placements
-    p_add(insts, "C13", "src_cropped_interior_u8", "quick", "U8", "None", 4, 3, 2, 2, None, C, ("exact",), src=("cropped", 6, 5, 1, 1))
-    p_add(insts, "C13", "src_cropped_flush_u8x4_sse4", "quick", "U8x4", "Sse4_1", 4, 3, 2, 2, None, C, ("cropped", 4, 3, 2, 1), src=("cropped", 5, 4, 1, 1))
-    p_add(insts, "C13", "src_nested_u16x2", "quick", "U16x2", "None", 4, 3, 2, 2, None, C, ("long", 2), src=("nested",))
+    # single-pass geometries keep the SAT problem small; the two-pass glue is C05's subject
+    p_add(insts, "C13", "src_cropped_interior_u8", "quick", "U8", "None", 4, 3, 2, 2, None, C, ("exact",), src=("cropped", 6, 5, 1, 1), mem=14)
+    p_add(insts, "C13", "src_cropped_flush_u8x4_sse4", "quick", "U8x4", "Sse4_1", 4, 2, 2, 2, None, C, ("cropped", 4, 3, 2, 1), src=("cropped", 5, 3, 1, 1), mem=14)
+    p_add(insts, "C13", "src_nested_u16x2", "quick", "U16x2", "None", 3, 3, 3, 2, None, C, ("long", 2), src=("nested",), mem=14)
     p_add(insts, "C13", "src_owned_f32_nearest", "quick", "F32", "None", 4, 3, 2, 2, None, ("Nearest",), ("cropped", 3, 3, 1, 1), src=("owned",))
     if tier == "thorough":
         p_add(insts, "C13", "src_cropped_flush_u8x3_avx2", "thorough", "U8x3", "Avx2", 4, 3, 2, 2, None, C, ("exact",), src=("cropped", 5, 4, 1, 1))
